@@ -58,7 +58,7 @@ impl Metric {
 }
 
 pub const DIMS_SMALL: &[usize] = &[2, 3, 4, 5, 7, 8];
-pub const DIMS_SIMD: &[usize] = &[1, 2, 3, 4, 7, 8, 9, 15, 16, 17, 31, 32, 33, 64];
+pub const DIMS_SIMD: &[usize] = &[1, 2, 3, 4, 7, 8, 9, 15, 16, 17, 31, 32, 33, 64, 65, 96, 130];
 
 /// Valid vector classes (accepted by every write path for the given metric).
 #[derive(Clone, Copy, Debug, PartialEq, Eq)]
@@ -87,8 +87,9 @@ pub fn valid_vector(t: &mut Tape, dim: usize, metric: Metric) -> Vec<f32> {
 pub fn vector_of_class(class: VClass, seed: u64, dim: usize, _metric: Metric) -> Vec<f32> {
     let mut m = Mix(seed.wrapping_mul(0x9E37_79B9).wrapping_add(dim as u64));
     let mut raw: Vec<f64> = (0..dim).map(|_| m.gauss()).collect();
-    if raw.iter().all(|x| x.abs() < 1e-6) {
-        raw[0] = 1.0;
+    // keep every "valid" class comfortably away from the zero-norm rejection threshold
+    if raw.iter().map(|x| x * x).sum::<f64>().sqrt() < 0.05 {
+        raw[0] = if raw[0] < 0.0 { raw[0] - 1.0 } else { raw[0] + 1.0 };
     }
     let norm = raw.iter().map(|x| x * x).sum::<f64>().sqrt();
     let unit: Vec<f64> = raw.iter().map(|x| x / norm).collect();
